@@ -1,6 +1,6 @@
 (* Property C17 — Gumbel sampling returns valid, correctly distributed samples. *)
 From Coq Require Import String Reals List Bool ZArith.
-From TLX Require Import Model.Relax Model.Domain Gen.Guards Proofs.RelaxFacts Proofs.C17Facts Proofs.C19Facts Proofs.C09Facts.
+From TLX Require Import Model.Relax Model.Domain Gen.Guards Proofs.RelaxFacts Proofs.C17Facts Proofs.C19Facts Proofs.C09Facts Gen.Sampling.
 From TLX Require Import Model.Poly Gen.Ops.
 Import ListNotations.
 Local Open Scope R_scope.
@@ -39,6 +39,13 @@ Proof. exact gumbel_hard_single_gate. Qed.
 Theorem C17_layer_soft_mixture : forall w tau a b, length w = 16%nat -> in01 a -> in01 b -> in01 (mix (soft_raw w tau) a b).
 Proof. exact soft_neuron_in01. Qed.
 
+(* gumbel_sigmoid and gumbel_softmax of the current source are, statement by statement, the modelled ones: logistic noise from one
+   uniform draw, soft = logistic((logit + noise) / tau), hard decided in logit space (logit + noise > tau * logit(threshold));
+   raw layers: soft = softmax((w + g) / tau), hard = the argmax of w + g *)
+Theorem C17_sampling_source : sampling_source_matches = true /\ gumbel_sigmoid_cut_in_logit_space = true
+  /\ gumbel_hard_gate_from_perturbed_logits = true.
+Proof. repeat split; reflexivity. Qed.
+
 Eval compute in "PA:C17_range"%string. Print Assumptions C17_range.
 Eval compute in "PA:C17_hard_values"%string. Print Assumptions C17_hard_values.
 Eval compute in "PA:C17_hard_event"%string. Print Assumptions C17_hard_event.
@@ -48,3 +55,4 @@ Eval compute in "PA:C17_reproducible"%string. Print Assumptions C17_reproducible
 Eval compute in "PA:C17_guard"%string. Print Assumptions C17_guard.
 Eval compute in "PA:C17_layer_hard_single_gate"%string. Print Assumptions C17_layer_hard_single_gate.
 Eval compute in "PA:C17_layer_soft_mixture"%string. Print Assumptions C17_layer_soft_mixture.
+Eval compute in "PA:C17_sampling_source"%string. Print Assumptions C17_sampling_source.
